@@ -72,7 +72,7 @@ def run(oc, tier, seed, model_available, escalate):
         if i % max(1, n_cases // 3) == 0:
             oc.sample({"request": lines[-1][:200], "impl_reply": impl[-1][:120]})
     # ---- tool level
-    n_tool = 4 if tier == "quick" else 60
+    n_tool = 10 if tier == "quick" else 120
     d = os.path.join(common.scratch(), "c12")
     f20_seen = False
     for i in range(n_tool):
